@@ -873,6 +873,26 @@ func readHalves(coeffs []uint64, re, im []uint64, maxCols, slots int) {
 	}
 }
 
+// BOUNDSCALE control: the unit normal is compared with the bound
+type gaussParams struct{ Sigma, Bound float64 }
+
+type GaussianSamplerFix struct{ xe gaussParams }
+
+func (g *GaussianSamplerFix) draw(norm float64) (uint64, bool) {
+	bound := g.xe.Bound
+	sigma := g.xe.Sigma
+	if norm <= bound {
+		return uint64(norm*sigma + 0.5), true
+	}
+	return 0, false
+}
+
+// SIZEDEP control: the auxiliary basis sized from the bit length of Q alone
+func auxBasisSize(p rlwe.Parameters) int {
+	nbQiMul := (p.RingQ().Modulus().BitLen() + 60) / 61
+	return nbQiMul
+}
+
 // INDEG control: the first two components of the input, whatever its degree
 func (e fixEvaluator) SumTwo(ctIn, opOut *rlwe.Ciphertext) {
 	e.r.Add(ctIn.Value[0], ctIn.Value[1], opOut.Value[0])
